@@ -9,6 +9,9 @@
 //   SP <step> ...              optional spurious-CAS-failure steps
 //   GO
 // Output (stdout): the SCEN/T lines echoed, one Q line per quantum, `END <status>`.
+#ifdef VERIF_COVERAGE
+extern "C" void __gcov_dump(void);  // coverage build only (check/coverage.py)
+#endif
 #include <sys/wait.h>
 #include <unistd.h>
 
@@ -599,6 +602,9 @@ main()
         // (e.g. a loop over plain memory that does not terminate) cannot be preempted by the baton scheduler
         alarm(20);
         run_child(sc);
+#ifdef VERIF_COVERAGE
+        __gcov_dump();
+#endif
         _exit(0);
       }
       int st = 0;
